@@ -209,10 +209,11 @@ class Session:
         self.t0 = time.time()
         self.solo_retries = []
 
-    def prepare(self, force_external=None):
+    def prepare(self, force_external=None, r20_result=None):
         self.forced = set(force_external or {})
+        self.r20_result = set(r20_result or ())
         try:
-            sp = splice.Splicer(self.repo, CONTRACTS, force_external=force_external or {}).run()
+            sp = splice.Splicer(self.repo, CONTRACTS, force_external=force_external or {}, r20_result=self.r20_result).run()
         except splice.SpliceError as e:
             raise Undecided("extraction: %s" % e)
         except Exception as e:  # parser crash etc.
@@ -500,7 +501,7 @@ ASSUMPTIONS = [
     "T1 buffer_redux::BufReader behaves as the stub specs in contracts/00_prelude.rs (written from buffer-redux 1.0.2 StdBuf, includes its unsafe code)",
     "T2 the io::Read/Seek source delivers consecutive bytes of a fixed file, returns 0 only at end of input, a failing call changes nothing, finitely many consecutive Interrupted",
     "T3 memchr::memchr / Memchr return the first / all indices of the needle",
-    "T4 assumed specifications of std items listed in trusted_base (split_last, split, splitn, chunks, str::from_utf8 with uninterpreted valid_utf8/str_bytes, ...); vstd's specs of Vec/slice/Option/Result",
+    "T4 assumed specifications of std items listed in trusted_base (split_last, split, splitn, chunks, cmp::min/max, Option::copied, mem::take/replace, to_vec/to_owned, bool::then_some, str::from_utf8 with uninterpreted valid_utf8/str_bytes, the external_body wrapper vx_str_splitn + VxStrSplitN::next standing for str::splitn(n, ASCII char), ...); vstd's specs of Vec/slice/Option/Result",
     "T5b lending a sink (&mut W) to another writer function keeps what the sink will finally contain (axiom_lend_keeps_fin)",
     "T5 io::Write sink appends exactly the bytes passed to write_all",
     "T6 user policies return None or a size strictly larger than the current one (proved for the three built-in policies)",
@@ -639,6 +640,21 @@ def esc_bytes(bs):
     return out
 
 
+def esc_out(bs):
+    """what the replay runner prints for a byte string: std::ascii::escape_default per byte, then `{:?}` of that String"""
+    out = ""
+    for b in bs:
+        if b == 9: out += "\\t"
+        elif b == 10: out += "\\n"
+        elif b == 13: out += "\\r"
+        elif b == 34: out += "\\\""
+        elif b == 39: out += "\\'"
+        elif b == 92: out += "\\\\"
+        elif 32 <= b < 127: out += chr(b)
+        else: out += "\\x%02x" % b
+    return out.replace("\\", "\\\\").replace('"', '\\"')
+
+
 def replay_cex(cex, repo):
     """run the verifier's counterexample against the real crate (replay runner), return what was observed"""
     if cex and str(cex.get("function", "")).endswith("::grow_to"):
@@ -655,6 +671,32 @@ def replay_cex(cex, repo):
             m = re.match(r"grow_to\(\d+\) -> (.*?)\s+documented: (.*)$", obs[0])
             rep = bool(m) and m.group(1).strip() != m.group(2).strip()
         return dict(arguments=cex, observed=obs[:1], reproduced=rep)
+    def trim(bs):
+        return bs[:-1] if bs and bs[-1] == 13 else bs
+    if cex and cex.get("function") == "fastq accessors":
+        f, o = cex["file"], cex["offsets"]
+        want = [trim(f[1:o["seq"] - 1]), trim(f[o["seq"]:o["sep"] - 1]), trim(f[o["qual"]:o["end"]])]
+        inp = esc_bytes(f)
+        r = sh([os.path.join(VERIF, "replay", "run.sh"), "--repo", repo, "fastq", "64", inp, "next"])
+        obs = [l for l in r.stdout.split("\n") if l.startswith("next ->")]
+        exp = 'next -> rec head="%s" seq="%s" qual="%s"' % tuple(esc_out(w) for w in want)
+        pan = [l.strip() for l in (r.stdout + (r.stderr or "")).split("\n") if "panicked at" in l]
+        if not obs and pan:
+            return dict(input=inp, expected=exp, observed=["the real crate " + pan[0][:200]], reproduced=True)
+        return dict(input=inp, expected=exp, observed=obs[:1], reproduced=bool(obs) and obs[0].strip() != exp)
+    if cex and cex.get("function") == "fasta owned_seq":
+        f, o = cex["file"], cex["offsets"]
+        head = trim(f[1:o["a"]])
+        full = trim(f[o["a"] + 1:o["b"]]) + trim(f[o["b"] + 1:o["c"]])
+        inp = esc_bytes(f)
+        r = sh([os.path.join(VERIF, "replay", "run.sh"), "--repo", repo, "fasta", "64", inp, "next"])
+        obs = [l for l in r.stdout.split("\n") if l.startswith("next ->")]
+        w1 = 'head="%s"' % esc_out(head)
+        w2 = 'full="%s"' % esc_out(full)
+        pan = [l.strip() for l in (r.stdout + (r.stderr or "")).split("\n") if "panicked at" in l]
+        if not obs and pan:
+            return dict(input=inp, expected=[w1, w2], observed=["the real crate " + pan[0][:200]], reproduced=True)
+        return dict(input=inp, expected=[w1, w2], observed=obs[:1], reproduced=bool(obs) and not (w1 in obs[0] and w2 in obs[0]))
     if not cex or cex.get("function") != "trim_cr":
         return None
     line = cex["line"]
@@ -704,13 +746,26 @@ def main():
         try:
             sess.verify()
         except Rejected as r:
-            why = {k: "rejected by the verifier inside this function: " + r.msgs[:200] for k in r.fns}
-            sess = Session(a.repo, tier, use_cache=not a.no_cache)
-            sess.prepare(force_external=why)
-            try:
-                sess.verify()
-            except Rejected as r2:
-                raise Undecided("verifier rejected the generated file (also with %s emitted unverified): %s" % (sorted(why), r2.msgs))
+            # rule R20 wrote `x.map(|..| ..)` / and_then / map_or as a match on an Option; where that does not type-check the receiver
+            # may be a Result: one more attempt with the Result forms in the rejected functions that have such a rewrite
+            r20 = {k for k in r.fns if k in sess.fns and any(x.startswith("R20a") for x in sess.fns[k].rewrites)}
+            done = False
+            if r20:
+                sess2 = Session(a.repo, tier, use_cache=not a.no_cache)
+                sess2.prepare(r20_result=r20)
+                try:
+                    sess2.verify()
+                    sess, done = sess2, True
+                except Rejected:
+                    pass
+            if not done:
+                why = {k: "rejected by the verifier inside this function: " + r.msgs[:200] for k in r.fns}
+                sess = Session(a.repo, tier, use_cache=not a.no_cache)
+                sess.prepare(force_external=why)
+                try:
+                    sess.verify()
+                except Rejected as r2:
+                    raise Undecided("verifier rejected the generated file (also with %s emitted unverified): %s" % (sorted(why), r2.msgs))
     except Undecided as e:
         for p in props:
             print("UNDECIDED property=%s reason=%s" % (p, e))
@@ -801,7 +856,7 @@ def main():
     return rc
 
 
-KANI_QUICK = {"C01", "C02", "C09", "C12", "C13"}
+KANI_QUICK = {"C01", "C02", "C04", "C09", "C12", "C13"}
 
 
 def claimed_props():
